@@ -9,6 +9,7 @@ Require Import Urcu.Lfq.LfqInv.
 Require Import Urcu.Lfq.LfqLin.
 Require Import Urcu.Lfq.LfqInit.
 Require Import Urcu.Lfq.LfqRcu.
+Require Import Urcu.Lfq.LfqDestroy.
 Import ListNotations.
 
 (* chain invariant incl. tail never behind head, any threads/ops/schedule *)
@@ -50,4 +51,37 @@ Theorem C12_no_access_after_grace_period :
     forall (t : nat) (x : N), In x (refs (qcur (QS isD s t))) -> gret g x = 0%N \/ (gF g < gret g x)%N.
 Proof. exact (@Urcu.Lfq.LfqRcu.lfq_no_access_after_gp). Qed.
 Print Assumptions C12_no_access_after_grace_period.
+
+(* in every reachable state of the queue model (any threads, operation lists over fresh nodes, every schedule) the walk of cds_lfq_destroy_rcu from the head - refuse at the first non-dummy node, succeed at the end - answers exactly 'the abstract FIFO is empty', however many dummy nodes the chain holds and wherever they are *)
+Theorem C12_destroy_iff_empty :
+    forall (isD : N -> bool) (d0 : N),
+    d0 <> 0%N ->
+    forall threads : nat -> list qop * list N,
+    (forall (t : nat) (n : N), In n (futl threads t) -> n <> 0%N /\ n <> d0) ->
+    (forall (t u : nat) (n : N), In n (futl threads t) -> In n (futl threads u) -> t = u) ->
+    (forall t : nat, NoDup (futl threads t)) ->
+    (forall (t : nat) (n : N), In n (enqs (fst (threads t))) -> isD n = false) ->
+    (forall (t : nat) (d : N), In d (snd (threads t)) -> isD d = true) ->
+    isD d0 = true ->
+    forall cs : list choice,
+    let s := fst (run qloc qloc_eqb (qprog isD) cs (s0 isD d0 threads)) in
+    exists (q : list N) (fuel : nat),
+    AbsQ isD s q /\
+    destroy_walk isD fuel (nx isD s) (smem qloc (qprog isD) s LHead) =
+    Some match q with
+    | [] => true
+    | _ :: _ => false
+    end.
+Proof. exact (@Urcu.Lfq.LfqDestroy.lfq_destroy_reachable). Qed.
+Print Assumptions C12_destroy_iff_empty.
+
+(* 'both ends are dummies' is not emptiness: dummy, user node, dummy *)
+Theorem C12_destroy_both_ends_refuted :
+    let isD := fun x : N => ((x =? 2)%N || (x =? 4)%N)%bool in
+    let f := fun x : N => if (x =? 2)%N then 3%N else if (x =? 3)%N then 4%N else 0%N in
+    chainf f 2 [3%N; 4%N] /\
+    isD 2%N = true /\
+    isD 4%N = true /\ nonD isD [2%N; 3%N; 4%N] = [3%N] /\ destroy_walk isD 3 f 2 = Some false.
+Proof. exact (@Urcu.Lfq.LfqDestroy.both_ends_dummy_refuted). Qed.
+Print Assumptions C12_destroy_both_ends_refuted.
 
